@@ -105,15 +105,13 @@ def guards(pr):
     out = []
     q = "rp2.plugin.report.rp2_full_report.Generator."
     rel = "src/rp2/plugin/report/rp2_full_report.py"
-    f = A.func_node(pr.tree, q + "__get_hyperlinked_summary_value")
-    src = ast.unparse(f) if f else ""
-    i, j = src.find("not in self.__tax_sheet_year_2_row"), src.find("self.__tax_sheet_year_2_row[asset_and_year]")
-    out.append(A.bvc(q + "__get_hyperlinked_summary_value", "guard", "year_link_map_is_read_only_behind_a_membership_test", 0 <= i < j and "return value" in src[i:j], rel,
+    S = A.Fn(pr.tree, q + "__get_hyperlinked_summary_value")
+    out.append(A.bvc(S.qual, "guard", "year_link_map_is_read_only_behind_a_membership_test",
+                     S.order("if asset_and_year not in self.__tax_sheet_year_2_row:\n    return value", "row = self.__tax_sheet_year_2_row[asset_and_year]"), rel,
                      "a year with a summary line but no detail row in the window would raise KeyError"))
-    f = A.func_node(pr.tree, q + "__get_in_out_sheet_row")
-    src = ast.unparse(f) if f else ""
-    i, j = src.find("not in self.__in_out_sheet_transaction_2_row"), src.find("self.__in_out_sheet_transaction_2_row[transaction]")
-    out.append(A.bvc(q + "__get_in_out_sheet_row", "guard", "transaction_link_map_is_read_only_behind_a_membership_test", 0 <= i < j and "return None" in src[i:j], rel))
+    R = A.Fn(pr.tree, q + "__get_in_out_sheet_row")
+    out.append(A.bvc(R.qual, "guard", "transaction_link_map_is_read_only_behind_a_membership_test",
+                     R.has("if transaction not in self.__in_out_sheet_transaction_2_row:\n    return None\nreturn self.__in_out_sheet_transaction_2_row[transaction]"), rel))
     # no other subscript read of the two maps
     mod = pr.tree.modules["rp2.plugin.report.rp2_full_report"]
     reads = [n for n in ast.walk(mod.tree) if isinstance(n, ast.Subscript) and isinstance(n.ctx, ast.Load) and isinstance(n.value, ast.Attribute) and
@@ -125,32 +123,35 @@ def guards(pr):
         s2t = C14.sheet_to_types(m) or {}
         have = {t for ts in s2t.values() for t in ts}
         out.append(A.bvc(mname + "/<module>", "guard", "every_taxable_type_has_a_sheet", set(C14.ROUTE) <= have, m.relpath, f"no sheet for {sorted(set(C14.ROUTE) - have)}: KeyError in __generate"))
-    ci = A.func_node(pr.tree, "rp2.configuration.Configuration.__init__")
-    cs = ast.unparse(ci) if ci else ""
-    out.append(A.bvc("rp2.configuration.Configuration.__init__", "guard", "only_a_from_date_after_the_to_date_is_rejected", "if self.__from_date > self.__to_date:\n        raise RP2ValueError(" in cs, "src/rp2/configuration.py",
+    CI = A.Fn(pr.tree, "rp2.configuration.Configuration.__init__")
+    out.append(A.bvc(CI.qual, "guard", "only_a_from_date_after_the_to_date_is_rejected", CI.has("if self.__from_date > self.__to_date:\n    raise RP2ValueError(ANY)"), "src/rp2/configuration.py",
                      "a one-day window (from-date == to-date) is a valid combination"))
     # open_positions: denominators
-    f = A.func_node(pr.tree, "rp2.plugin.report.open_positions.Generator.generate")
-    src = ast.unparse(f) if f else ""
+    OP = A.Fn(pr.tree, "rp2.plugin.report.open_positions.Generator.generate")
+    f = OP.node
     rel = "src/rp2/plugin/report/open_positions.py"
     divs = [ast.unparse(n.right) for n in ast.walk(f) if isinstance(n, ast.BinOp) and isinstance(n.op, ast.Div)] if f else []
-    out.append(A.bvc("rp2.plugin.report.open_positions.Generator.generate", "guard", "denominators_are_total_cost_basis_or_total_crypto_balance", set(divs) == {"total_crypto_balance", "total_cost_basis"}, rel, str(divs)))
-    out.append(A.bvc("rp2.plugin.report.open_positions.Generator.generate", "guard", "cost_terms_are_added_only_when_strictly_positive",
-                     "if transaction_cost_basis > ZERO:\n                value = asset_cost_bases.setdefault(asset, ZERO)\n                value += transaction_cost_basis\n                asset_cost_bases[asset] = value\n                total_cost_basis += transaction_cost_basis" in src, rel))
-    out.append(A.bvc("rp2.plugin.report.open_positions.Generator.generate", "guard", "balance_terms_are_added_only_when_strictly_positive",
-                     "if balance_set.final_balance > ZERO:" in src and "asset_crypto_balance_holder[asset][balance_set.holder] += balance_set.final_balance" in src, rel))
+    dens_ok = OP and all(A.expr_eq("total_crypto_balance", d, OP.scope) or A.expr_eq("total_cost_basis", d, OP.scope) for d in divs) and len(set(divs)) == 2 and \
+        OP.has("total_crypto_balance = ZERO\nfor crypto_balance in asset_crypto_balance_holder[asset].values():\n    total_crypto_balance += crypto_balance")
+    out.append(A.bvc(OP.qual, "guard", "denominators_are_total_cost_basis_or_total_crypto_balance", bool(dens_ok), rel, str(divs)))
+    out.append(A.bvc(OP.qual, "guard", "cost_terms_are_added_only_when_strictly_positive",
+                     OP.has("if transaction_cost_basis > ZERO:\n    value = asset_cost_bases.setdefault(asset, ZERO)\n    value += transaction_cost_basis\n    asset_cost_bases[asset] = value\n    total_cost_basis += transaction_cost_basis"), rel))
+    out.append(A.bvc(OP.qual, "guard", "balance_terms_are_added_only_when_strictly_positive",
+                     OP.has("if balance_set.final_balance > ZERO:\n    ...\n    asset_crypto_balance_holder[asset][balance_set.holder] += balance_set.final_balance\n    ..."), rel))
     return out
 
 
 OTHER_COUNTS = []
+SIZE_SCOPE = None
 
 
 def _linear(e, atoms, locals_):
     """z3 integer term of a +/* expression over known atoms (None when a sub-term is not recognized)."""
     import z3
     src = ast.unparse(e)
-    if src in atoms:
-        return atoms[src]
+    for k, v in atoms.items():
+        if k == src or (SIZE_SCOPE is not None and A.expr_eq(k, src, SIZE_SCOPE)):
+            return v
     if isinstance(e, ast.Name) and e.id in locals_:
         return _linear(locals_[e.id], atoms, {})
     if isinstance(e, ast.Constant) and isinstance(e.value, int):
@@ -168,8 +169,10 @@ def _linear(e, atoms, locals_):
 
 
 def _size_term(f, atoms):
+    global SIZE_SCOPE
     if f is None:
         return None
+    SIZE_SCOPE = A.scope_of(f, A._MOD_OF.get(id(f)))
     locals_ = {}
     ret = None
     for st in f.body:
@@ -203,19 +206,18 @@ def sizes(pr):
              "len({balance.holder for balance in computed_data.balance_set})": H}
     t1 = _size_term(A.func_node(pr.tree, q + "__get_number_of_rows_in_transaction_sheet"), atoms)
     t2 = _size_term(A.func_node(pr.tree, q + "__get_number_of_rows_in_output_sheet"), atoms)
-    ga = A.func_node(pr.tree, q + "__generate_asset")
-    gsrc = ast.unparse(ga) if ga else ""
-    out.append(A.bvc(q + "__generate_asset", "size", "sheets_are_reset_to_the_two_size_functions",
-                     "transaction_sheet.reset(size=(self.__get_number_of_rows_in_transaction_sheet(computed_data), self.MAX_COLUMNS))" in gsrc and
-                     "output_sheet.reset(size=(self.__get_number_of_rows_in_output_sheet(computed_data), self.MAX_COLUMNS))" in gsrc, rel, open_=True))
+    GA = A.Fn(pr.tree, q + "__generate_asset")
+    out.append(A.bvc(GA.qual, "size", "sheets_are_reset_to_the_two_size_functions",
+                     GA.has("transaction_sheet.reset(size=(self.__get_number_of_rows_in_transaction_sheet(computed_data), self.MAX_COLUMNS))\n"
+                            "output_sheet.reset(size=(self.__get_number_of_rows_in_output_sheet(computed_data), self.MAX_COLUMNS))"), rel, open_=True))
     # the layout of the two sheets: tables and the two blank rows between them
-    layout_ok = all(x in gsrc for x in ("row_index = self.__generate_in_table(transaction_sheet, computed_data, row_index)", "row_index = self.__generate_out_table(transaction_sheet, computed_data, row_index + 2)",
-                                         "row_index = self.__generate_intra_table(transaction_sheet, computed_data, row_index + 2)",
-                                         "row_index = self.__generate_gain_loss_summary(output_sheet, computed_data.yearly_gain_loss_list, row_index)",
-                                         "row_index = self.__generate_account_balances(output_sheet, computed_data.balance_set, row_index + 2)",
-                                         "row_index = self.__generate_average_price_per_unit(output_sheet, asset, computed_data.price_per_unit, row_index + 2)",
-                                         "row_index = self.__generate_gain_loss_detail(output_sheet, asset, computed_data, row_index + 2)"))
-    out.append(A.bvc(q + "__generate_asset", "size", "table_layout_is_the_one_the_row_count_assumes", layout_ok, rel, open_=True))
+    layout_ok = GA.order("row_index = self.__generate_in_table(transaction_sheet, computed_data, row_index)", "row_index = self.__generate_out_table(transaction_sheet, computed_data, row_index + 2)",
+                         "row_index = self.__generate_intra_table(transaction_sheet, computed_data, row_index + 2)",
+                         "row_index = self.__generate_gain_loss_summary(output_sheet, computed_data.yearly_gain_loss_list, row_index)",
+                         "row_index = self.__generate_account_balances(output_sheet, computed_data.balance_set, row_index + 2)",
+                         "row_index = self.__generate_average_price_per_unit(output_sheet, asset, computed_data.price_per_unit, row_index + 2)",
+                         "row_index = self.__generate_gain_loss_detail(output_sheet, asset, computed_data, row_index + 2)")
+    out.append(A.bvc(GA.qual, "size", "table_layout_is_the_one_the_row_count_assumes", layout_ok, rel, open_=True))
     out.append(A.bvc(q + "__get_number_of_rows_in_transaction_sheet", "size", "size_is_a_linear_term_over_the_counts", t1 is not None and isinstance(min_rows, int), rel, open_=True))
     out.append(A.bvc(q + "__get_number_of_rows_in_output_sheet", "size", "size_is_a_linear_term_over_the_counts", t2 is not None and isinstance(min_rows, int), rel, open_=True))
     nonneg = nonneg + [v >= 0 for v in OTHER_COUNTS]
